@@ -86,7 +86,7 @@ def tree_sexp(t):
 
 def frag_program(rng):
     """a program of the fragment for which compile-then-execute = source meaning is PROVED (props/C01.v, C01_var_programs):
-    top-level declarations, assignments, expression statements, if/else, if and (counted, hence ending) condition loops
+    top-level declarations, assignments, expression statements, if/else, if and (counted, hence ending) condition loops with break / continue
     nested up to three deep, over scalar expressions on integers, booleans, nil and strings; here it is rendered to source text and pushed through the real pipeline like every other program"""
     nvars = [0]
     kinds = []          # 'i' / 'b' / '?' per variable (what it was last given; a guide for the generator, not a type system)
@@ -155,22 +155,26 @@ def frag_program(rng):
             return "v%d = %s" % (j, e)
         return expr(1)[0]
 
-    def block(depth):
-        return "; ".join(x for _ in range(rng.below(3)) for x in inner(depth))
+    def block(depth, in_loop=False):
+        return "; ".join(x for _ in range(rng.below(3)) for x in inner(depth, in_loop))
 
-    def inner(depth):
-        """the statements a block may hold: assignments, expressions, conditionals, counted loops (nesting <= 3)"""
-        k = rng.below(10)
+    def inner(depth, in_loop=False):
+        """the statements a block may hold: assignments, expressions, conditionals, counted loops (nesting <= 3); inside a loop
+        also break and continue (the counter is advanced first, so every loop still ends)"""
+        k = rng.below(12 if in_loop else 10)
+        if k >= 10:
+            w = rng.choice(["break", "continue"])
+            return [w] if rng.chance(1, 4) else ["if %s { %s }" % (bexpr(1), w)]
         if k >= 8 and depth < 3:
-            return ["if %s { %s } else { %s }" % (bexpr(1), block(depth + 1), block(depth + 1))]
+            return ["if %s { %s } else { %s }" % (bexpr(1), block(depth + 1, in_loop), block(depth + 1, in_loop))]
         if k == 7 and depth < 3:
-            return ["if %s { %s }" % (bexpr(1), block(depth + 1))]
+            return ["if %s { %s }" % (bexpr(1), block(depth + 1, in_loop))]
         if k == 6 and depth < 3 and free_counters:
             j = free_counters.pop()
-            body = block(depth + 1)
+            body = block(depth + 1, True)
             free_counters.append(j)
             return ["v%d = 0" % j,
-                    "for v%d < %d { %s }" % (j, rng.below(4), (body + "; " if body else "") + "v%d = v%d + 1" % (j, j))]
+                    "for v%d < %d { %s }" % (j, rng.below(4), "v%d = v%d + 1" % (j, j) + ("; " + body if body else ""))]
         return [simple()]
 
     lines = []
